@@ -54,6 +54,7 @@ def run(ctx):
             fns[f.name] = f
     check_deleg(repo, res, fns)
     check_fwd(repo, res, fns)
+    check_shared_forwarding(repo, res, fns)
     check_delim(repo, res, fns)
     check_2d(repo, res, fns)
     check_atomic(repo, res, fns)
@@ -587,3 +588,40 @@ def check_collections(repo, res, fns):
                 if not ok:
                     res.add(mk_finding(PROP, "F-COLL", w, lp, f"{wname}: the loop records a relative path for every member of the collection but does not (unconditionally) write the member with {member_writer}(); the collection file points at files that do not exist", role="member"))
     res.floor("serialisation sites in the JSON/HIF writers", n, 4)
+
+
+FORMAT_PARAMS = ("nodetype", "edgetype", "delimiter", "comments", "encoding", "dual", "create_using", "max_order", "data")
+
+
+def check_shared_forwarding(repo, res, fns):
+    """F-FWD (shared parameters): when a reader / writer / parser calls another one of this package (or itself, for the
+    members of a collection) and both have a format parameter of the same name (nodetype, edgetype, delimiter, comments,
+    encoding, dual, create_using, max_order), the callee receives the caller's value.  A member file read without the
+    caller's `edgetype` comes back with string IDs where the single-file path returns the cast ones."""
+    n = 0
+    by_name = dict(fns)
+    conv = {}
+    for mn, mi in repo.modules.items():
+        if mn.startswith("xgi.convert."):
+            conv.update(mi.functions)
+    for f in fns.values():
+        mine = set(f.all_params)
+        for c in ast.walk(f.node):
+            if not isinstance(c, ast.Call):
+                continue
+            nm = getattr(c.func, "id", getattr(c.func, "attr", None))
+            g = by_name.get(nm) or conv.get(nm)
+            if g is None:
+                continue
+            if any(isinstance(a, ast.Starred) for a in c.args) or any(k.arg is None for k in c.keywords):
+                continue  # bundles: handled by the dropped / dead parameter rules
+            gp = g.all_params
+            passed = set(gp[: len(c.args)]) | {k.arg for k in c.keywords if k.arg}
+            for p_ in FORMAT_PARAMS:
+                if p_ in mine and p_ in gp and p_ != "data":
+                    n += 1
+                    ok = p_ in passed
+                    res.inst("F-FWD", f"{f.qualname}:{c.lineno} {g.name}(... {p_}=...) receives the caller's `{p_}`", ok)
+                    if not ok:
+                        res.add(mk_finding(PROP, "F-FWD", f, c, f"{f.qualname}: `{unparse(c, 50)}` does not hand its own `{p_}` on to {g.name}, which then works with its default; what this path reads or writes differs from the other paths of the same function (e.g. the members of a collection come back with uncast IDs)", role=f"{g.name}:{p_}"))
+    res.floor("format parameters shared between a reader/writer and the function it calls", n, 8)
